@@ -117,9 +117,9 @@ CLAIMED.update({
    note=TB + "the saturation environment and the sum/frame rule of the divider are assumptions of the property itself; v1 not covered.",
    technique=GH2),
  "C06": dict(category="proof",
-   text="Safety core of progress for the v2 priority discipline: (i) the two blocking waits for a release (getOneFeedback, waitZeroActual) carry the obligation gInfl > 0 evaluated before the receive - the discipline never waits for a release that cannot come; (ii) calcTactic is proved to return 'proceed' whenever nothing is in flight (uses the list-sum/map-sum link of C05: shares sum to HandlersQuantity over the priority list, so the add-up-to-strategic path succeeds), which is what (i) needs in waitCalcTactic. NOT decided: that every item is eventually delivered and freedom from starvation (liveness over infinite histories); the 'lone priority gets all handlers' clause; v1.",
+   text="Safety core of progress for the v2 and v1 priority disciplines: (i) the two blocking waits for a release (getOneFeedback, waitZeroActual) carry the obligation gInfl > 0 evaluated before the receive - the discipline never waits for a release that cannot come; (ii) calcTactic is proved to return 'proceed' whenever nothing is in flight (uses the list-sum/map-sum link of C05: shares sum to HandlersQuantity over the priority list, so the add-up-to-strategic path succeeds), which is what (i) needs in waitCalcTactic. NOT decided: that every item is eventually delivered and freedom from starvation (liveness over infinite histories); the 'lone priority gets all handlers' clause.",
    design_ref="DESIGN.md §7 C06, §9, §12.6",
-   note=TB + "partial: only the safety core; assumes a divider obeying the sum and frame rules (C14) and the release protocol of C01; v1 not covered.",
+   note=TB + "partial: only the safety core; assumes a divider obeying the sum and frame rules (C14) and the release protocol of C01.",
    technique=GH2),
 })
 
